@@ -117,8 +117,8 @@ Section OpsP.
       destruct (value_roundtrip_all H SH h_enc h_dec h_nf h_type h_ok h_rt v O) as (A & B & C & _).
       rewrite A, B. repeat split. unfold enc. now rewrite C.
     - (* DataflowBlock *) rewrite (enc_sum_nf sum O). repeat split.
-    - (* Call *) rewrite (call_attrs_nf _ _ _ W). repeat split.
-      unfold nlen. destruct signature as [ps f]. cbn. unfold row_nf. now rewrite map_length.
+    - (* Call *) rewrite (call_attrs_nf _ _ _ W). repeat split;
+        try (unfold nlen; destruct instantiation as [fi fo fr]; cbn; unfold row_nf; now rewrite map_length).
     - (* LoadFunc *) rewrite (call_attrs_nf _ _ _ W). repeat split.
     - (* Conditional *) rewrite (enc_sum_nf sum O). repeat split.
     - (* Case *) unfold mkfunc. rewrite func_ser_rows. repeat split.
